@@ -150,6 +150,28 @@ _ZERO = {
 }
 
 
+def check_template(case) -> None:
+    from netqasm.lang.encoding import RegisterName
+    from netqasm.lang.operand import Immediate, Register, Template
+    from netqasm.lang.subroutine import Subroutine
+
+    cls = g.class_by_name(case["flavour"], case["cls"])
+    v, pos = case["value"], case["pos"]
+    reg = Register(RegisterName.Q, 3)
+    ops = [Immediate(9), Immediate(4)]
+    ops[pos] = Template("t")
+    sub = Subroutine(instructions=[cls(reg=reg, imm0=ops[0], imm1=ops[1])], app_id=0)
+    sub.instantiate(5, {"t": v})
+    ops[pos] = Immediate(v)
+    want = Subroutine(instructions=[cls(reg=reg, imm0=ops[0], imm1=ops[1])], app_id=5)
+    try:
+        got = bytes(sub)
+    except Exception as e:
+        raise Failure(f"template:{case['flavour']}:{cls.mnemonic}", case, f"{cls.mnemonic} with operand {pos} instantiated to {v} does not encode: {type(e).__name__}: {e}")
+    if got != bytes(want):
+        raise Failure(f"template:{case['flavour']}:{cls.mnemonic}", case, f"{cls.mnemonic} with operand {pos} instantiated to {v} encodes to {got.hex()}, built directly {bytes(want).hex()}")
+
+
 def _bit_i32(b: int) -> int:
     return -(2**31) if b == 31 else 1 << b
 
@@ -254,6 +276,26 @@ def shard(ctx: Ctx) -> None:
         stt.case(["hdr", [0x12, 0x34], 0x5678], True, ["enum:header"], sample={"header": [[0x12, 0x34], 0x5678]})
         stt.exhaustive_domains["header walking ones"] = n_h + 1
 
+        # template operands filled in by Subroutine.instantiate (0 is a value like any other): same bytes as the instruction built with the value
+        from netqasm.lang.instr import core
+
+        for fname in g.FLAVOURS:
+            for cls in g.flavour_classes(fname):
+                if not issubclass(cls, core.RotationInstruction):
+                    continue
+                for v in (0, 1, 17, 255):
+                    for pos in (0, 1):
+                        c_ = {"kind": "template", "flavour": fname, "cls": cls.__name__, "value": v, "pos": pos}
+                        ctx.attempt(c_, check_template, c_)
+                        stt.case(["template", fname, cls.__name__, v, pos], True, [f"enum:{fname}", "template"])
+        # long subroutines (beyond 1000 and beyond 4096 instructions): every class of the flavour with pairwise distinct operands, repeated
+        for fname in g.FLAVOURS:
+            base = [[cls.__name__, cls.mnemonic, all_distinct(g.shape_of(cls))] for cls in g.flavour_classes(fname) if cls.mnemonic in refenc.TABLE[fname]]
+            for n_long in (1001, 4100):
+                j_long = {"flavour": fname, "app_id": 3, "version": [0, 10], "instrs": (base * (n_long // len(base) + 1))[:n_long]}
+                ctx.attempt({"kind": "sub", **j_long}, check_subroutine, j_long)
+                stt.case(["long", fname, n_long], True, [f"sub:{fname}", "sub:long"])
+
     n_rand = 3000 if ctx.tier == "quick" else 30000
     n_sub = 300 if ctx.tier == "quick" else 2000
     for fi, fname in enumerate(g.FLAVOURS):
@@ -289,6 +331,8 @@ def replay(case):
             check_header(case["version"], case["app_id"])
         elif case["kind"] == "sub":
             check_subroutine({k: case[k] for k in ("flavour", "app_id", "version", "instrs")})
+        elif case["kind"] == "template":
+            check_template(case)
         elif case["kind"] == "missing":
             have = {c.mnemonic for c in g.flavour_classes(case["flavour"])}
             if case["mnemonic"] not in have:
